@@ -304,6 +304,11 @@ def obligations(prop="C19"):
             if l.kind == "under" and r.kind == "guarded" and _guarded(fn.node, call, tsrc):
                 ok, v = True, under(l.root)
                 detail = "component checked at run time by `.resolve().relative_to(...)` directly before the call"
+        deleting = what in ("shutil.rmtree", ".unlink()", ".rmdir()", "os.remove", "os.unlink", "shutil.move")
+        if ok and deleting and v.root != OUT:
+            # only the output directory is protected by the source-inside-output refusal: nothing else may ever be deleted
+            ok = False
+            detail = f"a deleting call under {v.root}: only the output directory (guarded by the refusal check) may be emptied"
         r = OR(id=f"{prop}.S.{key}.site{k}", status=PROVED if ok else REFUTED, kind="S", role="pre", backend="path-algebra", target=f"{fn.mod}.{fn.qual}",
                desc=f"{what} on `{tsrc[:70]}` targets a path under {'the output / graph directory' if not ok else v.root} " + detail)
         if not ok:
